@@ -253,6 +253,15 @@ def replay(ctx: core.Ctx, recs: List[Dict[str, Any]], *, checks: Sequence[str], 
 
 
 def replay_one(data) -> int:
+    if data.get('engine') == 'fortran':
+        out = core.run_workers('harness.replay_fortran', [{'records': [data['record']], 'workdir': str(core.subdir('fortran-frame')), 'seed': 0, 'base': 0,
+                                                           'namemap': 'plain', 'mode': 'frame'}])[0]
+        if out['mismatches']:
+            print(json.dumps(out['mismatches'][0]['key']))
+            print(f"VIOLATION property={data['property']} replay=<given file>")
+            return 1
+        print('replay: the Fortran engine now leaves everything else untouched')
+        return 0
     payload = {'records': [data['record']], 'checks': data['checks'], 'namemaps': data['namemaps'], 'layouts': data.get('layouts', ['canon']), 'seed': 0}
     out = core.run_workers('harness.replay_script', [payload])[0]
     if out['mismatches']:
